@@ -171,6 +171,8 @@ type Obs struct {
 	ScopeInputs [][]KV `json:"scope_inputs"`          // per meter: its attributes + name + version, in set order
 	ScopeInfoSeries [][]KV `json:"scope_info_series"` // label pairs of every otel_scope_info series
 	SecondFamilies int  `json:"second_scrape_families"`
+	HelpTrials int      `json:"help_trials"` // description-mix scenarios: fresh exporters scraped once each ...
+	HelpOK     int      `json:"help_ok"`     // ... and how many of them gathered without error with a single help text
 	Unstable  bool      `json:"unstable"`  // two consecutive scrapes differed
 }
 
@@ -225,6 +227,23 @@ func runScenario(sc Scenario) (ob Obs) {
 	if strings.HasSuffix(sc.Inst, "expohist") {
 		mpOpts = append(mpOpts, sdk.WithView(sdk.NewView(sdk.Instrument{Name: "*"},
 			sdk.Stream{Aggregation: sdk.AggregationBase2ExponentialHistogram{MaxSize: 160, MaxScale: sc.MaxScale}})))
+	}
+	// Description mix (some meter without, some with a description): which meter the exporter sees first is the SDK's map
+	// order, re-drawn for every reader, and the exporter caches the first help it saw.  helpTrials further exporters on the
+	// same provider, each scraped once, separate "fails for some orders" (F-C18-4) from "fails for every order".
+	var trialRegs []*prometheus.Registry
+	if descMix(sc) {
+		for i := 0; i < helpTrials; i++ {
+			treg := prometheus.NewRegistry()
+			topts := append([]otelprom.Option{otelprom.WithRegisterer(treg)}, opts[1:]...)
+			texp, terr := otelprom.New(topts...)
+			if terr != nil {
+				ob.InstErr = "New (trial): " + terr.Error()
+				return
+			}
+			mpOpts = append(mpOpts, sdk.WithReader(texp))
+			trialRegs = append(trialRegs, treg)
+		}
 	}
 	rctx := ctx
 	if sc.Exemplars {
@@ -465,6 +484,22 @@ func runScenario(sc Scenario) (ob Obs) {
 		}
 	}
 
+	for _, treg := range trialRegs {
+		ob.HelpTrials++
+		tmfs, terr := treg.Gather()
+		if terr != nil {
+			continue
+		}
+		n := 0
+		for _, mf := range tmfs {
+			if mf.GetName() != "target_info" && mf.GetName() != "otel_scope_info" {
+				n++
+			}
+		}
+		if n <= 1 { // no error, one help text (or nothing exposed at all: every point of the scenario was left out for another reason)
+			ob.HelpOK++
+		}
+	}
 	// the SDK's own view of the same instrument
 	var rm metricdata.ResourceMetrics
 	if err := rd.Collect(ctx, &rm); err != nil {
@@ -682,6 +717,22 @@ func dtoEx(e *dto.Exemplar) ExJ {
 		x.Labels = append(x.Labels, KV{lp.GetName(), lp.GetValue()})
 	}
 	return x
+}
+
+// helpTrials: with Go's map iteration the meter created first is seen first with probability >= 7/8 per reader, any other
+// one with probability 1/8; (7/8)^200 = 2.5e-12 bounds the chance that no trial sees a described meter first.
+const helpTrials = 200
+
+func descMix(sc Scenario) bool {
+	if len(sc.ExtraDescs) == 0 {
+		return false
+	}
+	empty, nonEmpty := sc.Desc == "", sc.Desc != ""
+	for _, d := range sc.ExtraDescs {
+		empty = empty || d == ""
+		nonEmpty = nonEmpty || d != ""
+	}
+	return empty && nonEmpty
 }
 
 func childMain(scheme, in, out string) {
@@ -1589,9 +1640,13 @@ func emit(w *vgen.Writer, sc Scenario, ob Obs) {
 		if len(ob.Families) == 1 {
 			help = ob.Families[0].Help
 		}
-		t := vgen.App("CHelp", vgen.List(ds), vgen.Bool(ob.GatherErr != ""), vgen.Nat(len(ob.Families)), vgen.HxS(help))
+		t := vgen.App("CHelp", vgen.List(ds), vgen.Bool(ob.GatherErr != ""), vgen.Nat(len(ob.Families)), vgen.HxS(help), vgen.Nat(ob.HelpTrials), vgen.Nat(ob.HelpOK))
+		if ob.HelpTrials > 0 {
+			w.Tally(fmt.Sprintf("description-mix:trials-ok=%d/%d", ob.HelpOK/20*20, ob.HelpTrials))
+		}
 		w.Tally("descriptions-differ-across-meters")
-		w.Add(t, map[string]any{"descriptions": append([]string{sc.Desc}, sc.ExtraDescs...), "gather_err": ob.GatherErr, "families": ob.Families, "utf8": sc.UTF8}, "help-"+scheme, true)
+		w.Add(t, map[string]any{"descriptions": append([]string{sc.Desc}, sc.ExtraDescs...), "gather_err": ob.GatherErr, "families": ob.Families, "utf8": sc.UTF8,
+			"fresh_exporters_scraped_once": ob.HelpTrials, "of_which_without_error": ob.HelpOK}, "help-"+scheme, true)
 		if descsDiffer && ob.GatherErr != "" {
 			return // the family is incomplete after a Gather error: CHelp carries the verdict
 		}
